@@ -11,6 +11,10 @@ from . import vp
 
 ALPHA = ["a", "A", "z", "{", "[", "_", "0", "\x10", " ", "\t", "é", "É", "退", "ß", "😀", "\x0b"]
 ASCII = [c for c in ALPHA if ord(c) < 128]
+# a second, small alphabet: ASCII letters together with the non-ASCII characters whose Unicode case mappings land
+# on them (U+212A KELVIN SIGN lowercases to k, U+0130 to i + combining dot, U+017F LONG S uppercases to S) - what
+# an "ASCII case-insensitive" matcher must NOT fold
+ALPHA2 = ["k", "K", "\u212a", "i", "I", "\u0130", "\u0131", "s", "S", "\u017f", "a"]
 
 
 def lower(c):
@@ -50,7 +54,8 @@ ERRSPEC = {
 }
 
 
-def params(tier):
+def params(tier, ALPHA=ALPHA):
+    ASCII = [c for c in ALPHA if ord(c) < 128]
     ps = [("char", None, None), ("ws", None, None), ("eoi", None, None)]
     for c in ALPHA:
         ps.append(("clit", c, None))
@@ -71,7 +76,7 @@ def params(tier):
     return ps
 
 
-def inputs(tier):
+def inputs(tier, ALPHA=ALPHA):
     k = 2 if tier == "quick" else 3
     out = []
     for n in range(k + 1):
@@ -93,6 +98,12 @@ def run(ctx, out, pid):
     reqs, meta = [], []
     for (kind, p1, p2) in ps:
         for s in ins:
+            reqs.append("term\t%s\t%s\t%s\t%s" % (kind, enc(kind, p1), enc(kind, p2), s.encode().hex()))
+            meta.append((kind, p1, p2, s))
+    # the case-confusable alphabet
+    ps2, ins2 = params("thorough", ALPHA2), inputs("quick", ALPHA2)
+    for (kind, p1, p2) in ps2:
+        for s in ins2:
             reqs.append("term\t%s\t%s\t%s\t%s" % (kind, enc(kind, p1), enc(kind, p2), s.encode().hex()))
             meta.append((kind, p1, p2, s))
     impl = vp.pipe_lines(ctx.direct, reqs)
@@ -126,4 +137,4 @@ def run(ctx, out, pid):
                                "reproduce": "printf '%s\\n' | %s" % (rq.replace("\t", "\\t"), ctx.direct)})
     return {"terminal_cases": len(reqs), "terminal_params": len(ps), "terminal_inputs": len(ins),
             "terminal_nontrivial": nontrivial, "terminal_panics": panics,
-            "terminal_model_disagreements": disagree, "terminal_exhaustive_over": "all strings of <= %d chars over %d-char alphabet" % (2 if ctx.tier == "quick" else 3, len(ALPHA))}
+            "terminal_model_disagreements": disagree, "terminal_exhaustive_over": "all strings of <= %d chars over %d-char alphabet, and all strings of <= 2 chars over the %d-char case-confusable alphabet (k K U+212A i I U+0130 U+0131 s S U+017F a)" % (2 if ctx.tier == "quick" else 3, len(ALPHA), len(ALPHA2))}
